@@ -17,6 +17,12 @@ SPEC = {
         # Mutes and the stages
         "AM.TimeInterval.mutes_spec", "AM.TimeInterval.mute_gate", "AM.TimeInterval.active_gate",
         "AM.TimeInterval.stages_transparent", "AM.TimeInterval.route_gate",
+        # the location carried by the caller's time.Time is irrelevant (UTC by default; Mutes normalises with now.UTC())
+        "AM.TimeInterval.containsTime_caller_zone_irrelevant", "AM.TimeInterval.containsTime_no_location",
+        "AM.TimeInterval.containsTime_alone_depends_on_caller_zone",
+        "AM.TimeInterval.mutes_caller_zone_irrelevant", "AM.TimeInterval.mutes_reads_utc_by_default",
+        "AM.TimeInterval.mute_stage_caller_zone_irrelevant", "AM.TimeInterval.active_stage_caller_zone_irrelevant",
+        "AM.TimeInterval.pipeline_caller_zone_irrelevant",
         # validation
         "AM.TimeInterval.rangeValid_weekday", "AM.TimeInterval.rangeValid_dom", "AM.TimeInterval.parseTimeRange_valid",
     ],
@@ -28,14 +34,20 @@ SPEC = {
             "absent / null / empty-list fields) x instants: every UTC-offset change 1850-2100 of 22 IANA zones at -120,-61,-60,-1,0,+1,+59,+60,+120 s, "
             "a minute grid 1850-2100 with seconds 0/59/random, and local date-times built from the interval's own bounds (range ends +-1, month ends, 29 Feb); "
             "per instant ContainsTime for every interval (UTC or another caller zone), Intervener.Mutes on name lists, TimeMuteStage / TimeActiveStage / "
-            "MultiStage{active,mute} Exec with the group marker read back; a fifth of the random cases draws from pools of invalid and tricky-valid strings "
+            "MultiStage{active,mute} Exec with the group marker read back; the instant handed to Mutes / put into the stage context is carried in a caller zone drawn per line: "
+            "UTC, Local (time.Unix(u,0) as timer channels deliver it; the process zone time.Local is set per case to one of the IANA zones or a fixed offset, UTC in a third of the cases), "
+            "fixed offsets +14:00 +13:00 -12:00 -11:00 +05:45 -03:30 +09:30 -04:42:46 +01:00, IANA zones with DST, the intervals' own zones; for both location-less intervals and intervals "
+            "with a location; half of the Mutes lines and a third of the stage lines are repeated at once with another caller zone and must give the same answer; "
+            "the spec side reads Go's civil fields in the interval's own location (UTC when it has none), never in the caller's; a fifth of the random cases draws from pools of invalid and tricky-valid strings "
             "plus short fuzz strings and compares accept/reject and the parsed ranges; a case is non-trivial when it hits a tagged branch "
-            "(c:in, time:at-end, dom:negative, dom:begins-after-month-end, dom:end-clamped, zone:offset-with-seconds, gate:* ...); distinct = hash of the case's lines",
+            "(c:in, time:at-end, dom:negative, dom:begins-after-month-end, dom:end-clamped, zone:offset-with-seconds, gate:*, m:/st:caller-non-utc, m:/st:caller-zone-would-differ, m:/st:two-caller-zones ...); distinct = hash of the case's lines",
     "assumptions": [
         "the tz database is data: the harness reports the offset Go's time package gives for (zone, instant); the driver checks the model's civil fields against Go's for every (instant, zone)",
         "YAML/JSON libraries and strings.ToLower on ASCII are trusted; generated range strings are ASCII (plus one non-ASCII digit string in the invalid pool)",
         "time.LoadLocation's verdict on a location name is an input (locok) to the model's validation",
         "the model's month length is the calendar's; the pinned code evaluates it in the interval's location (finding F12, fixes/F12.diff)",
+        "a Go time.Time is modelled as (unix seconds, offset of the location it carries): callerOff; time.Time.UTC() is utcOff (offset 0, same instant); "
+        "the harness assigns time.Local inside the test process (single goroutine) to stand for a process started with another TZ",
         "gate theorems: route id, group key and now are in the context and every listed name is configured (config.Load guarantees it); other contexts are compared against the model only",
     ],
 }
